@@ -1,13 +1,16 @@
 """C02 — a saved session restores to an observationally equivalent session.
 
 families
-  fw     synthetic object graphs (shared references, cycles, inlined objects, generator loaders,
+  fw     synthetic object graphs (shared references, cycles, inlined objects / forests, generator loaders,
          deferred callbacks, clashing / literal-looking labels) through the REAL GlueSerializer /
          GlueUnSerializer; the Lean model predicts names, errors and the restored graph by name
   cls    one case per class of the generated dispatch table: an instance is put into a session, the
          session is saved and restored; the restored object's type and the session's behaviour are
          judged by the Lean Spec (this is the behavioural validation of declaredFaithful/declaredLoud;
          a class without a recipe must be listed in the driver's noRecipeAllowed)
+  rec    every object of a class of the record table (Model/C02Records.lean) in a generated session: the REAL
+         saver's output == Lean encode(fields), Lean decode(real record) == the fields of the REAL restored object,
+         restored fields == saved fields (c02_rec.py)
   sess   data collections built through the public API, include_data=True: snapshot before, after the
          restore, and after saving the restored session AGAIN and restoring that (idempotence)
   sessf  file-backed datasets (load_data), include_data=False, through Application.save_session /
